@@ -57,6 +57,9 @@ def plan(prop, tier, seed):
         jobs += [dict(kind="paginate_insert", prop=prop, seed=s) for s in S(150 if q else 3000, 20000)]
         jobs += [dict(kind="tokens", prop=prop, seed=s) for s in S(1 if q else 8, 30000)]
         jobs += _exh(prop, 2 if q else 3)
+    if prop == "C10":
+        # every token the paginators can issue must be read back as issued
+        jobs += [dict(kind="tokens", prop=prop, seed=s) for s in S(1 if q else 8, 30000)]
     if prop == "C06":
         kinds = ["page", "page", "page", "page", "rule", "links", "pages", "batch"]
         jobs += _hist(prop, S(400 if q else 5000), nops=25, mode="rules", kinds=kinds, reopen=True)
